@@ -761,6 +761,8 @@ class FunctionParser(BaseParser):
             else:
                 if inspect.isgenerator(item):
                     generator = item
+                    # (a just-started generator can not be sent a value)
+                    sent = None
                     continue
                     # maybe a tail opt generator
 
